@@ -2,6 +2,7 @@ package main
 
 import (
 	"bufio"
+	"bytes"
 	"compress/gzip"
 	"fmt"
 	"io"
@@ -69,33 +70,57 @@ func addOneToBar(bar *progressbar.ProgressBar) {
 
 func processMongoLogStream(r io.Reader, outWriter io.Writer, bar *progressbar.ProgressBar) error {
 	scanner := bufio.NewScanner(r)
-	for scanner.Scan() {
-		line := scanner.Text()
+	// The scanner also delivers what is left after the last newline when the input ends - whether it
+	// ended cleanly or with a read error. After a read error that remainder may be a line that was cut
+	// short, so it is set aside and only processed once the scanner has reported a clean end.
+	unterminated := false
+	scanner.Split(func(data []byte, atEOF bool) (int, []byte, error) {
+		if atEOF && len(data) > 0 && bytes.IndexByte(data, '\n') < 0 {
+			unterminated = true
+		}
+		return bufio.ScanLines(data, atEOF)
+	})
+	processLine := func(line string) error {
 		// Ensure bar is not nil before accessing its state to prevent panics.
 		// The condition itself (empty line at max progress) is specific to the original logic.
 		if line == "" && bar != nil && bar.State().CurrentNum == bar.GetMax64() {
 			addOneToBar(bar)
-			continue
+			return nil
 		}
 		// RedactMongoLog is not provided in the context, assuming it's defined elsewhere.
 		redacted, err := RedactMongoLog(line)
 		if err != nil {
 			addOneToBar(bar)
-			continue
+			return nil
 		}
 		out, err := MarshalOrdered(redacted)
 		if err != nil {
 			addOneToBar(bar)
-			continue
+			return nil
 		}
 		if _, err := fmt.Fprintln(outWriter, string(out)); err != nil {
 			return fmt.Errorf("failed to write output: %w", err)
 		}
 		// addOneToBar already handles the nil check for 'bar', so no need for an 'if' here.
 		addOneToBar(bar)
+		return nil
+	}
+	var lastLine *string
+	for scanner.Scan() {
+		line := scanner.Text()
+		if unterminated {
+			lastLine = &line
+			continue
+		}
+		if err := processLine(line); err != nil {
+			return err
+		}
 	}
 	if err := scanner.Err(); err != nil {
 		return err
+	}
+	if lastLine != nil {
+		return processLine(*lastLine)
 	}
 	return nil
 }
